@@ -247,6 +247,9 @@ type Conn struct {
 	dead bool
 	hung bool
 	nreq int
+	// BurstIdx is the position of the current command within the burst of commands that arrived
+	// together (0 = the server had to wait for it); scenarios use it to delay only burst starts.
+	BurstIdx int
 
 	// session
 	Proto                              int
@@ -382,6 +385,11 @@ func (c *Conn) readLoop() {
 	defer c.S.W.wg.Done()
 	r := bufio.NewReaderSize(c.nc, 64<<10)
 	for {
+		if r.Buffered() == 0 {
+			c.BurstIdx = 0
+		} else {
+			c.BurstIdx++
+		}
 		argv, err := resp.ReadCommand(r)
 		if err != nil {
 			c.kill("peer closed: " + err.Error())
